@@ -129,8 +129,9 @@ func (db *DB) DeleteChannels(chs []ChannelKey) (err error) {
 	// Do a pass first to remove all non-index channels
 	for _, ch := range chs {
 		udb, uok := db.mu.dbs.unary[ch]
+		_, vok := db.mu.dbs.virtual[ch]
 
-		if !uok || udb.Channel().IsIndex {
+		if (!uok && !vok) || udb.Channel().IsIndex {
 			if udb.Channel().IsIndex {
 				indexChannels = append(indexChannels, ch)
 			}
